@@ -124,7 +124,7 @@ def run(ctx):
     for x in roots:
         r0.instance({"root": x})
 
-    rp, seen, inv = panic_rule(ctx, chk, "C04", "P-no-reachable-panic", roots, floor=400)
+    rp, seen, inv = panic_rule(ctx, chk, "C04", "P-no-reachable-panic", roots, floor=150)
     chk.analysed["reachable_functions"] = len([n for n in seen if n in F.fns])
     recursion_rule(ctx, chk, "C04", "S-no-recursion", seen)
     from .. import loops
@@ -132,7 +132,7 @@ def run(ctx):
 
     # W: exactly one response write on every entry->return path of each per-connection function
     rw = chk.rule("W-one-response-per-path", "on every entry->return path of a per-connection function the transport is written exactly once", floor=2)
-    re_ = chk.rule("E-error-edges-answer-400", "a write dominated by a failed read/parse/handler test sends the bytes of the 400 constructor; every other write sends the serialised response", floor=6)
+    re_ = chk.rule("E-error-edges-answer-400", "a write dominated by a failed read/parse/handler test sends the bytes of the 400 constructor; every other write sends the serialised response", floor=2)
     ctor400 = None
     for fn in F.rws_fns():
         # the 400 constructor: builds a response from the n400 status entry and serialises it
@@ -144,7 +144,7 @@ def run(ctx):
     if ctor400 is None:
         re_.violate("C04|E|anchor-missing|400-constructor", "no function builds a Response from the 400 status entry (anchor missing)")
     for name in R.connection_fns:
-        fn = F.fns[name]
+        fn = ctx.inl(F.fns[name])       # private helpers (send-and-flush, reply-with-400) are part of the function for this rule
         cfg = cfg_of(fn)
         du = du_of(fn)
         g = guards_of(fn)
